@@ -433,8 +433,16 @@ func (w *W) c10Judge(st *histState, g string, doc []byte, nd bool, hseed int64, 
 		}
 		op := randSetOp(r)
 		trace = append(trace, fmt.Sprintf("%v:%s", l, op))
-		bad, _ := doSet(pj, roots, l, op, routeInto)
+		route := routeInto
+		if r.Chance(1, 3) {
+			route = routeElems // the edit goes through an Element of parsed Elements, which are marshalled afterwards
+		}
+		bad, _ := doSet(pj, roots, l, op, route)
 		if bad != "" {
+			if strings.Contains(bad, "the same Elements marshal") || strings.Contains(bad, "MarshalJSON of the same Elements") {
+				w.Violation("C10/Elements.MarshalJSON/after-edit-through-its-element/"+setNames[op.Kind], fmt.Sprintf("%s; doc=%s %s edits=%v", bad, q(doc), ctx, lastN(trace, 6)), cs)
+				return
+			}
 			w.Count("edit_failed_(C13)", 1)
 			return
 		}
